@@ -226,15 +226,16 @@ RetStep(t, call) ==
            n == IF t.single THEN 1 ELSE Min(Len(rv), Len(t.ret)) IN
        \* a single (non-tuple) result is checked against the first declared dimension only
        IF \A i \in 1..Min(n, Len(t.ret)) : Fits(rv[i], t.ret[i]) THEN OutD("ok", "", TRUE, TRUE) ELSE OutD("raise", "TypeError", TRUE, FALSE)
-TStep(t, call) ==
+\* the code before fix: commit ee18517 (positional arguments paired with co_varnames); still accepted by TOkStep
+TStepByVarnames(t, call) ==
   IF t.hasAcc /\ ~AccCheckOk(t, call) THEN OutD("raise", "TypeError", FALSE, FALSE)
   ELSE IF ~BindOk(t, call) THEN OutD("raise", "TypeError", FALSE, FALSE)
   ELSE RetStep(t, call)
-\* the proposed repair (fixes/C19-accepts-bind-by-signature.patch): arguments are identified by inspect.signature(f).bind_partial
-TStepBySignature(t, call) ==
+\* today's code: arguments are identified by inspect.signature(f).bind_partial
+TStep(t, call) ==
   IF ~BindOk(t, call) THEN OutD("raise", "TypeError", FALSE, FALSE)
   ELSE IF ~ArgsFit(t, call) THEN OutD("raise", "TypeError", FALSE, FALSE)
   ELSE RetStep(t, call)
 SameStep(x, o) == o.k = x.k /\ o.exc = x.exc /\ o.called = x.called /\ o.same = x.same
-TOkStep(t, call, o) == SameStep(TStep(t, call), o) \/ SameStep(TStepBySignature(t, call), o)
+TOkStep(t, call, o) == SameStep(TStep(t, call), o) \/ SameStep(TStepByVarnames(t, call), o)
 =====================
